@@ -225,6 +225,9 @@ def find_or_extend(item_list: list[T], key_func: Callable[[T], Hashable] = id) -
             pass
         else:
             for i in indices:
+                if i + len(items) > len(item_list):
+                    # Only the start would match, the rest runs off the end of the list.
+                    continue
                 if all(
                     key_func(a) == key_func(b)
                     for a, b in
